@@ -39,6 +39,8 @@ RULE = (
     "the client dropped its handshake keys); non-trivial = run in which the congestion window limited sending at least once; "
     "distinct = hash of the bucketed sequence of (step cause, budget outcome) per send cycle."
 )
+RULE += ' Wire part: an observer appended to every packet a live connection hands to the recovery flags a second outcome report (at-most-once on live connections, including restarts after Retry / Version Negotiation).'
+
 ASSUMPTIONS = [
     "callers respect what QuicConnection respects: packet numbers strictly increasing per connection, send times and "
     "`now` non-decreasing, ack range sets non-empty and below 2^62, spaces registered in recovery.spaces, no send/ack "
